@@ -20,7 +20,9 @@ RULE = ("one case = one classifier fitted once on a generated tiny problem (8-14
         "whose estimators list contains a 'drop' entry, an entry without columns, an unused column with "
         "remainder='drop', or a remainder estimator), "
         "TimeSeriesForestClassifier, RandomIntervalSpectralForest, SupervisedTimeSeriesForest, "
-        "TimeSeriesForestRegressor; refit histories (the same object fitted on problem A, then on problem B "
+        "TimeSeriesForestRegressor; time series forest classifier / regressor on data whose level is large "
+        "relative to its spread (1e4..1e9), with tiny spreads, constant series or mixed levels, every "
+        "feature of every tree compared with the two-pass mean / std / slope; refit histories (the same object fitted on problem A, then on problem B "
         "with another label set / type / number of classes; clauses after the last fit) for every one of "
         "them; extra SupervisedTimeSeriesForest problems that are small and balanced so "
         "that bootstrap bags miss classes (trees with fewer classes than the forest), three of them "
@@ -57,7 +59,10 @@ MODELLED = [
     "(vote counting / weighting / normalisation, averaging, column order, arg-max decoding, score) is "
     "modelled and proved; for learned members nothing about their accuracy is claimed",
     "float64 rounding is outside the model: comparison with tolerance 1e-9; forest features are "
-    "stored as float32 by the code: tolerance 1e-5; std is compared through its square (variance)",
+    "stored as float32 by the code: tolerance 1e-5 * max(1, |value|); std is compared through its "
+    "square (variance) in Coq and directly (two-pass float64) in the Python oracle; series levels are "
+    "generated up to 1e9 in magnitude: the code's _slope (moment form in float64) has an absolute "
+    "error of about 1e-16 * level, inside the tolerance there, beyond it from about 1e10 (notes/C17.md, O-2)",
     "tie rule: the model's predict is classes_[first arg-max] (np.argmax); the property only demands "
     "A maximal label, so the run accepts any label attaining the row maximum (BOSS/cBOSS choose at "
     "random among maxima); how often the implementation agrees with first-max is reported in the "
@@ -236,6 +241,24 @@ def gen_cases(rng, tier):
                       "m": rng.randint(18, 22), "noise": rng.choice([1.0, 2.5]),
                       "rs": rng.choice([0, 1, 7, 42, 123]), "ycont": rng.choice(["array", "series"]),
                       "unseen_test_label": rng.random() < 0.25, "members": mem, "spec": spec})
+    # level / scale of the data for the forests whose trees see mean / std / slope of intervals: a level
+    # of 1e4..1e9 with unit or tiny spread, constant series, a mix of levels in one panel (a one-pass
+    # variance E[y^2] - mean^2 cancels there: seed C17-f)
+    for i in range(16 if tier == "quick" else 80):
+        name = ["tsf", "tsfreg"][i % 2]
+        k = rng.choice([2, 3])
+        n = rng.randint(max(8, 2 * k), 12)
+        lv = [{"levels": [1e8], "spreads": [1.0]}, {"levels": [1e9], "spreads": [1.0]},
+              {"levels": [1e6], "spreads": [1.0, 1e-2]}, {"levels": [1e4, 1e8], "spreads": [1.0]},
+              {"levels": [1e8], "spreads": [1.0, 0.0]}, {"levels": [0.0, 1e9], "spreads": [1.0, 1e-3]},
+              {"levels": [1e7], "spreads": [3.0]}, {"levels": [-1e8, 1e8], "spreads": [1.0]}][(i // 2) % 8]
+        c = {"kind": "clf", "clf": name, "seed": rng.randint(0, 10 ** 6), "k": k,
+             "labelset": rng.choice(sorted(LABELSETS)), "sizes": _sizes(rng, k, n), "n_test": 5,
+             "m": rng.randint(18, 24), "noise": rng.choice([0.3, 1.0]), "rs": rng.choice([0, 1, 7, 42, 123]),
+             "ycont": rng.choice(["array", "series"]), "unseen_test_label": False, "level": lv}
+        if name == "tsfreg":
+            c["kind"] = "reg"
+        cases.append(c)
     # refit histories: the SAME estimator object is fitted on problem A and then on problem B
     # (another label set, label type and / or number of classes); every clause is checked after the
     # LAST fit - nothing of the first problem (classes, lookups, members) may survive (seed C17-e)
@@ -348,8 +371,21 @@ def _problem(case, ncols=1):
     r.shuffle(cls_train)
     cls_test = [int(r.randint(0, k)) for _ in range(case["n_test"])]
 
+    # data dimension level / scale: y = level + spread * (the series above); a level that is large
+    # relative to the spread (raw counters, timestamps), tiny spreads, constant series (spread 0),
+    # or a mix of levels within one panel
+    lv = case.get("level")
+    r2 = np.random.RandomState(case["seed"] + 7)
+
+    def scaled(v):
+        if lv is None:
+            return v
+        level = lv["levels"][r2.randint(len(lv["levels"]))]
+        spread = lv["spreads"][r2.randint(len(lv["spreads"]))]
+        return level + spread * v
+
     def panel(cls):
-        return pd.DataFrame({"dim_%d" % j: [pd.Series(series(c)) for c in cls] for j in range(ncols)})
+        return pd.DataFrame({"dim_%d" % j: [pd.Series(scaled(series(c))) for c in cls] for j in range(ncols)})
     Xtr, Xte = panel(cls_train), panel(cls_test)
     ytr = [labels[c] for c in cls_train]
     yte = [labels[c] for c in cls_test]
@@ -452,6 +488,17 @@ def _stsf_method_rows(clf, X):
     return [np.asarray(clf._predict_proba_for_estimator(X2, X_p, X_d, clf.intervals_[i],
                                                         clf.estimators_[i]))
             for i in range(clf.n_estimators)]
+
+
+def _tsf_feats_all(est, X):
+    """every tree's _transform output on every instance, with the raw series and the intervals"""
+    from sktime.series_as_features.base.estimators.interval_based._tsf import _transform
+    from sktime.utils.data_processing import from_nested_to_3d_numpy
+    X2 = from_nested_to_3d_numpy(X).squeeze(1)
+    return {"X": [[float(v) for v in row] for row in X2],
+            "trees": [{"ivs": [[int(a), int(b)] for a, b in iv],
+                       "rows": [[float(v) for v in row] for row in _transform(X2, iv)]}
+                      for iv in est.intervals_]}
 
 
 def _tsf_feats(clf, X, limit=2):
@@ -602,6 +649,7 @@ def _run_clf(case):
         out["member_shapes"] = [list(np.shape(m)) for m in members]
     if name == "tsf":
         out["feat"] = _tsf_feats(clf, Xte)
+        out["feat_all"] = _tsf_feats_all(clf, Xte)
     return out
 
 
@@ -620,7 +668,7 @@ def _run_reg(case):
     trees = [np.asarray(e.predict(_transform(X2, iv))) for e, iv in zip(reg.estimators_, reg.intervals_)]
     pred = np.asarray(reg.predict(Xte))
     return {"trees": [[_ratio(v) for v in t] for t in trees], "pred": [_ratio(v) for v in pred],
-            "pred_shape": list(pred.shape), "n": int(X2.shape[0])}
+            "pred_shape": list(pred.shape), "n": int(X2.shape[0]), "feat_all": _tsf_feats_all(reg, Xte)}
 
 
 def _run_basepredict(case):
@@ -818,6 +866,22 @@ def _clf_oracle(case, out):
         e = _feat_oracle([_f(v) for v in f["x"]], f["ivs"], [_f(v) for v in f["row"]])
         if e:
             return e
+    if out.get("feat_all"):
+        return _feat_all_oracle(out["feat_all"])
+    return None
+
+
+def _feat_all_oracle(fa):
+    """the features the fitted trees are fed are mean / std / slope of the fitted intervals by their
+    two-pass definitions in float64 (tolerance 1e-5: the code stores float32)"""
+    import math
+    for t, tree in enumerate(fa["trees"]):
+        for i, row in enumerate(tree["rows"]):
+            if any(math.isnan(v) or math.isinf(v) for v in row):
+                return "tsf-feature-not-finite: tree %d instance %d row %s" % (t, i, row[:6])
+            e = _feat_oracle(fa["X"][i], tree["ivs"], row)
+            if e:
+                return e + " (tree %d, instance %d, series level %.6g)" % (t, i, sum(fa["X"][i]) / len(fa["X"][i]))
     return None
 
 
@@ -853,6 +917,8 @@ def oracle(case, out):
             p = _f(out["pred"][i])
             if p is None or abs(p - sum(ts) / len(ts)) > 1e-9 * max(1.0, abs(p)):
                 return "regressor-not-mean-of-trees: instance %d got %r, trees give %s" % (i, p, ts)
+        if out.get("feat_all"):
+            return _feat_all_oracle(out["feat_all"])
         return None
     if k == "slope":
         ys = [a / b for a, b in case["ys"]]
@@ -1075,6 +1141,8 @@ def distribution(cases, results):
                 d["cboss-ensembles-of-zero-accuracy-members-only"] += 1
             elif any((w or 0) < 1e-6 for w in ws):
                 d["cboss-ensembles-with-a-zero-accuracy-member"] += 1
+        if c.get("level"):
+            d["level-scale-case:%s" % ("error" if "err" in o else "ran")] += 1
         if c.get("prefit"):
             d["refit-history:%s" % ("error" if "err" in o else "fit-refused" if "fit_refused" in o else "ran")] += 1
         if o.get("colens") and c.get("spec"):
